@@ -170,6 +170,7 @@ def c14(rep, tier):
     r_cmp.run_cmptotal(p, rep)
     r_cmp.run_eqonly(p, rep)
     r_cmp.run_orderins(p, rep, [r_cmp.CORE_FNS["value_eq"], r_cmp.CORE_FNS["value_cmp"]])
+    r_table.run_filter_ops(p, rep, only=["array::"])
     rep.analysed["config:all"] = {"bodies": len(p.fns)}
 
 
@@ -177,6 +178,7 @@ def c15(rep, tier):
     p = P("all")
     r_arith.run(p, rep, scope=lambda fn: fn.id.startswith("liquid_lib::stdlib::filters::math::"))
     r_math.run(p, rep)
+    r_table.run_filter_ops(p, rep, only=["math::"])
     rep.analysed["config:all"] = {"bodies": len(p.fns)}
 
 
@@ -274,6 +276,7 @@ def c13(rep, tier):
     r_unit.run(p, rep)
     r_unit.run_split_join(p, rep)
     r_unit.run_truncate_decision(p, rep)
+    r_table.run_filter_ops(p, rep, only=["string::", "html::NewlineToBr"])
     r_lookup.run_fold_order(p, rep)
     import r_strslice
     fns = [f for f in p.fns.values() if f.id.startswith("liquid_lib::stdlib::filters::string::") or f.id.startswith("liquid_lib::stdlib::filters::slice::")]
